@@ -37,11 +37,13 @@ THEOREMS = [
     'Emg.residual_of_solved', 'Emg.amat_nonint', 'Emg.amat_zero',
     'Emg.restrict_zero', 'Emg.prolong_zero', 'Emg.smoothingC_fixed',
     'Emg.step_inv', 'Emg.runTrace_fixed', 'Emg.mgRun_fixed',
+    'Emg.lenPres_mgTrace', 'Emg.mgRun_fixed_exact',
     # non-singular block systems for physical models (Props/Coercive.lean)
     'Emg.energy_zero', 'Emg.solution_unique_phys',
     'Emg.blockInj_phys', 'Emg.allInj_phys', 'Emg.Phys.coarse',
     'Emg.Phys.reach', 'Emg.smoother_fixed_point_phys',
     'Emg.kernel_fixed_point_phys', 'Emg.mgRun_fixed_phys',
+    'Emg.mgRun_fixed_exact_phys',
 ]
 
 KN = ['gauss_seidel', 'gauss_seidel_x', 'gauss_seidel_y', 'gauss_seidel_z']
